@@ -224,7 +224,11 @@ class Interp:
                 if k == 'decl':
                     for vd in s_['vars']:
                         if vd.get('init') is not None:
-                            env[vd['id']] = wrap(self.ev(vd['init'], env, members), vd.get('t')) if width(vd.get('t'))[0] else self.ev(vd['init'], env, members)
+                            try:
+                                env[vd['id']] = wrap(self.ev(vd['init'], env, members), vd.get('t'))
+                            except Unsupported:
+                                # a local of a type this interpreter does not model: left unbound, any later use fails
+                                env.pop(vd['id'], None)
                     continue
                 if k in ('bin', 'un', 'call', 'cond'):
                     # sub-expressions listed separately by the CFG are pure re-evaluations: only effects matter
